@@ -16,6 +16,7 @@
 //@rule LOCKLET :: let mut (\w+) = (self(?:\.\w+)+)\.lock\(\)\.unwrap\(\); :: let \1 = &mut \2; :: R1
 //@rule LOCKEXPR :: \.lock\(\)\.unwrap\(\) ::  :: R1
 //@rule TRYLOCK :: (self(?:\.\w+)+)\.try_lock\(\) :: try_lock_seq(&mut \1) :: R1 try_lock never contended (assumption)
+//@rule TRYLOCKBUF :: (self(?:\.\w+)+)\.try_lock\(\) :: try_lock_buffer(&mut \1) :: R1 a try_lock on the BUFFER's mutex may find it taken (the reader of a buffer - e.g. a monitoring thread draining it - may hold it while the simulation writes): WouldBlock is a possible answer
 //@rule MUTSELF :: \(&self\b :: (&mut self :: R2 interior mutability made explicit
 //@rule PANIC :: panic!\(\) :: vpanic() :: R6
 //@rule PUBSTRUCT :: ^(\s*)(?:pub(?:\(crate\))? )?struct :: \1pub struct :: R7
@@ -33,6 +34,13 @@ fn vpanic() -> ! { panic!() }
 pub enum TryLockError { WouldBlock, Poisoned(u8) }
 pub enum TryLockResult<G> { Ok(G), Err(TryLockError) }
 
+// a try_lock on the buffer's mutex either yields exclusive access or reports WouldBlock (nothing is assumed about contention)
+#[verifier::external_body]
+fn try_lock_buffer<X>(m: &mut X) -> (r: TryLockResult<&mut X>)
+    ensures
+        r matches TryLockResult::Ok(g) ==> *g == *old(m) && *final(g) == *final(m),
+        !(r matches TryLockResult::Ok(_)) ==> (r matches TryLockResult::Err(TryLockError::WouldBlock)) && *final(m) == *old(m),
+{ TryLockResult::Ok(m) }
 // assumption: try_lock on an uncontended mutex succeeds and yields exclusive access
 #[verifier::external_body]
 fn try_lock_seq<T>(m: &mut Option<T>) -> (r: TryLockResult<&mut Option<T>>)
@@ -102,7 +110,7 @@ impl<T> EventBuffer<T> {
     }
 //@end
 
-//@item src=nexosim/src/ports/sink/event_buffer.rs kind=fn name=next within=`Iterator for EventBuffer<T>` rules=LOCKEXPR,SELFITEM,RET
+//@item src=nexosim/src/ports/sink/event_buffer.rs kind=fn name=next within=`Iterator for EventBuffer<T>` rules=LOCKEXPR,TRYLOCKBUF,PANIC,SELFITEM,RET
     fn next(&mut self) -> (r: Option<T>)
         //@[
         requires old(self).inner.wf(),
@@ -143,7 +151,7 @@ impl<T> EventBuffer<T> {
 }
 
 impl<T> EventBufferWriter<T> {
-//@item src=nexosim/src/ports/sink/event_buffer.rs kind=fn name=write within=`for EventBufferWriter<T>` rules=MUTSELF,LOAD,LOCKLET canary=1
+//@item src=nexosim/src/ports/sink/event_buffer.rs kind=fn name=write within=`for EventBufferWriter<T>` rules=MUTSELF,LOAD,LOCKLET,TRYLOCKBUF,PANIC canary=1
     fn write(&mut self, event: T)
         //@[
         requires old(self).inner.wf(),
